@@ -234,3 +234,11 @@ RULES.append(("C08.LISTTOTAL", "`hyeong check` lists any parse result without cr
 
 RULES.append(("C08.GROUP", "command fields are assigned only as part of an accepted command start; unmatched start syllables are skipped by absolute character index (shared with C04.GROUP)", p_c04.rule_group))
 RULES.append(("C08.DEFS", "dot counting, location, newline tracking and the index kind of both passes (shared with C04.DEFS)", p_c04.rule_defs))
+
+
+def _codeapi(ctx, R):
+    from . import p_c01
+    return p_c01.rule_codeapi(ctx, R)
+
+
+RULES.append(("C08.CODEAPI", "the words kind / syllable count / dot count / area count / area mean the fields of the command record: getters and constructors of UnOptCode and OptCode (shared with C01.CODEAPI)", _codeapi))
